@@ -50,6 +50,18 @@ class NoneV(object):
 NONE = NoneV()
 
 
+class BoolV(object):
+    def __init__(self, v):
+        self.v = v
+
+    def __repr__(self):
+        return "True" if self.v else "False"
+
+
+TRUE = BoolV(True)
+FALSE = BoolV(False)
+
+
 class Lit(object):
     """branch literal: kind in zero / nonzero / opaque ; for opaque, `pol` is the polarity"""
     __slots__ = ("kind", "val", "pol", "text")
@@ -58,6 +70,10 @@ class Lit(object):
         self.kind, self.val, self.pol, self.text = kind, val, pol, text
 
     def negate(self):
+        if self.kind == "ptzero":
+            return Lit("ptnonzero", self.val, True, self.text)
+        if self.kind == "ptnonzero":
+            return Lit("ptzero", self.val, True, self.text)
         if self.kind == "zero":
             return Lit("nonzero", self.val, True, self.text)
         if self.kind == "nonzero":
@@ -67,6 +83,8 @@ class Lit(object):
     def __repr__(self):
         if self.kind == "opaque":
             return "%s[%s]" % ("" if self.pol else "not ", self.text)
+        if self.kind.startswith("pt"):
+            return "%s %s O" % (self.val, "==" if self.kind == "ptzero" else "!=")
         return "%s %s 0" % (self.val, "==" if self.kind == "zero" else "!=")
 
 
@@ -114,10 +132,34 @@ class FormulaEval(object):
         self.call_hook = call_hook
         self.attr_hook = attr_hook
         self.inline = inline                  # predicate on FuncInfo, None = every resolvable function
+        self.mod_hook = None                  # (a, b) -> value of a % b, or None
         self.unknowns = []                    # texts of constructs that became Unknown
         self.depth = 0
         self.npaths = 0
         self.base_heap = {}
+        # group-level values (LinPt): what .order() / .curve() answer, which scalar indeterminates
+        # annihilate a point (n * P = O), which indeterminates vanish in coordinates (p)
+        self.point_order = None
+        self.point_curve = None
+        self.scalar_zero = ()
+        self.coord_zero = ()
+        self.coords = {}          # name of a coordinate indeterminate -> ("x"|"y", LinPt)
+
+    def norm_point(self, P):
+        if not self.scalar_zero:
+            return P
+        env = {v: Poly() for v in self.scalar_zero}
+        return LinPt({k: Rat(c.n.subst(env), c.d.subst(env)) for k, c in P.c.items()})
+
+    def coord_var(self, which, P):
+        P = self.norm_point(P)
+        name = "%s<%s>" % (which, " + ".join("(%r)%s" % (P.c[k], k) for k in sorted(P.c)))
+        # the same point written differently gets the same indeterminate
+        for nm, (w, Q) in self.coords.items():
+            if w == which and Q == P:
+                return Rat.var(nm)
+        self.coords[name] = (which, P)
+        return Rat.var(name)
 
     def new_obj(self, cls, fields=None, tag=None):
         """an input object of the analysed function (fields by mangled attribute name)"""
@@ -156,7 +198,7 @@ class FormulaEval(object):
             if d.value is None:
                 return NONE
             if isinstance(d.value, bool):
-                return Rat.const(int(d.value))
+                return TRUE if d.value else FALSE
             if isinstance(d.value, int):
                 return Rat.const(d.value)
         return Unknown("default " + ast.unparse(d))
@@ -332,17 +374,25 @@ class FormulaEval(object):
     def _literal(self, test, st):
         """-> list of (Lit | True | False, state) for an atomic test taken as true"""
         text = ast.unparse(test)
-        if isinstance(test, ast.Compare) and len(test.ops) == 1 and isinstance(test.ops[0], (ast.Eq, ast.NotEq)):
+        if isinstance(test, ast.Compare) and len(test.ops) == 1 and isinstance(test.ops[0], (ast.Eq, ast.NotEq, ast.Is, ast.IsNot)):
             out = []
             for a, s2 in self._expr(test.left, st):
                 for b, s3 in self._expr(test.comparators[0], s2):
                     if isinstance(a, Rat) and isinstance(b, Rat):
                         lit = self._zero_lit(a - b, text)
                     elif isinstance(a, LinPt) and isinstance(b, LinPt):
-                        lit = True if a == b else Lit("opaque", None, True, text)
+                        d = self.norm_point(a - b)
+                        lit = True if not d.c else Lit("ptzero", d, True, text)
+                    elif isinstance(a, LinPt) and _is_infinity(b) or isinstance(b, LinPt) and _is_infinity(a):
+                        d = self.norm_point(a if isinstance(a, LinPt) else b)
+                        lit = True if not d.c else Lit("ptzero", d, True, text)
+                    elif (a is NONE or b is NONE) and (isinstance(a, (Rat, LinPt, BoolV, NoneV)) and isinstance(b, (Rat, LinPt, BoolV, NoneV))):
+                        lit = a is b
+                    elif isinstance(a, BoolV) and isinstance(b, BoolV):
+                        lit = a.v == b.v
                     else:
                         lit = Lit("opaque", (a, b), True, text)
-                    if isinstance(test.ops[0], ast.NotEq):
+                    if isinstance(test.ops[0], (ast.NotEq, ast.IsNot)):
                         lit = (not lit) if isinstance(lit, bool) else lit.negate()
                     out.append((lit, s3))
             return out
@@ -356,6 +406,10 @@ class FormulaEval(object):
                 out.append((lit, s2))
             elif v is NONE:
                 out.append((False, s2))
+            elif isinstance(v, BoolV):
+                out.append((v.v, s2))
+            elif isinstance(v, LinPt) or (isinstance(v, Obj) and not v.cls.startswith("$")):
+                out.append((True, s2))
             else:
                 out.append((Lit("opaque", v, True, text), s2))
         return out
@@ -375,7 +429,7 @@ class FormulaEval(object):
             if e.value is None:
                 return [(NONE, st)]
             if isinstance(e.value, bool):
-                return [(Rat.const(int(e.value)), st)]
+                return [(TRUE if e.value else FALSE, st)]
             if isinstance(e.value, int):
                 return [(Rat.const(e.value), st)]
             return [(Unknown(repr(e.value)[:30]), st)]
@@ -393,6 +447,8 @@ class FormulaEval(object):
                 return [(self._neg(v), s2) for v, s2 in self._expr(e.operand, st)]
             if isinstance(e.op, ast.UAdd):
                 return self._expr(e.operand, st)
+            if isinstance(e.op, ast.Not):
+                return [(TRUE, s2) for s2 in self._assume(e, True, st)] + [(FALSE, s2) for s2 in self._assume(e, False, st)]
             return [(Unknown(ast.unparse(e)), st)]
         if isinstance(e, ast.BinOp):
             out = []
@@ -426,8 +482,9 @@ class FormulaEval(object):
             for s2 in self._assume(e.test, False, st):
                 out.extend(self._expr(e.orelse, s2))
             return out
-        if isinstance(e, ast.BoolOp) or isinstance(e, ast.Compare):
-            return [(Unknown(ast.unparse(e)), st)]
+        if isinstance(e, (ast.BoolOp, ast.Compare)) or (isinstance(e, ast.UnaryOp) and isinstance(e.op, ast.Not)):
+            # truth value of a test: one path per outcome
+            return [(TRUE, s2) for s2 in self._assume(e, True, st)] + [(FALSE, s2) for s2 in self._assume(e, False, st)]
         self.unknowns.append("expression " + type(e).__name__)
         return [(Unknown(ast.unparse(e)[:60]), st)]
 
@@ -466,6 +523,10 @@ class FormulaEval(object):
             return [(Unknown(ast.unparse(e)[:60]), st)]
         try:
             if isinstance(op, ast.Mod):
+                if self.mod_hook is not None:
+                    r = self.mod_hook(a, b)
+                    if r is not None:
+                        return [(r, st)]
                 if self._is_modulus(b) and isinstance(a, Rat):
                     return [(a, st)]
                 return [(Unknown(ast.unparse(e)[:60]), st)]
@@ -619,11 +680,15 @@ class FormulaEval(object):
             return [(Unknown(ast.unparse(e)[:60]), st)]
         if last in ("int", "mpz", "abs_int") and len(args) == 1 and isinstance(fn, ast.Name):
             return [(args[0], st)]
+        if last == "hasattr" and isinstance(fn, ast.Name) and len(args) == 2:
+            return [(Unknown(ast.unparse(e)[:60]), st)]
         # method call on an abstract object
         if isinstance(fn, ast.Attribute):
             out = []
             for base, s2 in self._expr(fn.value, st):
-                if isinstance(base, Obj) and base.cls == "$module":
+                if isinstance(base, LinPt):
+                    out.append((self._point_method(e, base, fn.attr, args, kw), s2))
+                elif isinstance(base, Obj) and base.cls == "$module":
                     r = self.p.resolve_name(base.tag, fn.attr) if base.tag in self.p.modules else None
                     out.extend(self._call_resolved(e, r, args, kw, s2))
                 elif isinstance(base, Obj) and base.cls == "$class":
@@ -654,6 +719,21 @@ class FormulaEval(object):
                 return self._call_resolved(e, ("class", self.p.cls(v.tag)), args, kw, st)
         return [(Unknown(ast.unparse(e)[:60]), st)]
 
+    def _point_method(self, e, P, name, args, kw):
+        if name in ("x", "y") and not args:
+            return self.coord_var(name, P)
+        if name == "order" and not args and self.point_order is not None:
+            return self.point_order
+        if name == "curve" and not args and self.point_curve is not None:
+            return self.point_curve
+        if name in ("scale", "to_affine") and not args:
+            return P
+        if name == "double" and not args:
+            return P + P
+        if name == "mul_add" and len(args) == 3 and isinstance(args[0], Rat) and isinstance(args[1], LinPt) and isinstance(args[2], Rat):
+            return P.smul(args[0]) + args[1].smul(args[2])
+        return Unknown(ast.unparse(e)[:60])
+
     def _call_resolved(self, e, r, args, kw, st):
         if r and r[0] == "func" and self._may_inline(r[1]):
             return self._inline(r[1], args, kw, st)
@@ -675,6 +755,10 @@ class FormulaEval(object):
             s2 = _St(st.env, path.conds, path.heap)
             out.append((_Raised(path.value, path.node) if path.kind == "raise" else obj, s2))
         return out
+
+
+def _is_infinity(v):
+    return isinstance(v, Obj) and v.cls == "$global" and v.tag == "INFINITY"
 
 
 class _Raised(object):
